@@ -1,391 +1,683 @@
 package main
 
-// C12: RunnerCloserManager.Run (K3) and locking.
+// C12: RunnerCloserManager.Run (K0, K3, K4, K5c), AddCloser (K3-lock, K3-wrap).
 
 import (
+	"fmt"
+	"go/token"
 	"go/types"
-	"strings"
 
 	"golang.org/x/tools/go/ssa"
 )
 
-func (x *c12) isInnerRunCall(call *ssa.Call) bool {
-	return callIs(call, x.pkg, "RunnerManager", "Run")
-}
-
-func (x *c12) checkCloserRun() {
-	r, p := x.r, x.p
-	fn := x.cmRun
-	fname := FuncName(p, fn)
-	ws, ok := x.workers(fn)
-	if !ok || len(ws) == 0 {
-		return
-	}
-	// classify the goroutines
-	var inner, closers []*c12Worker
-	for _, w := range ws {
-		isInner, isCloser, sends := false, false, false
-		allInstrs(w.Fn, func(in ssa.Instruction) {
-			switch v := in.(type) {
-			case *ssa.Call:
-				if x.isInnerRunCall(v) {
-					isInner = true
-				} else if !v.Call.IsInvoke() {
-					if _, ok := c12ElemOfField(v.Call.Value, w.Bind, x.cmClosers); ok {
-						isCloser = true
-					}
-				}
-			case *ssa.Send:
-				sends = true
-			}
-		})
-		switch {
-		case isInner && !isCloser:
-			inner = append(inner, w)
-		case isCloser && !isInner:
-			closers = append(closers, w)
-		default:
-			if sends || (isInner && isCloser) {
-				r.Undecide("%s: goroutine %s is neither the inner-manager goroutine nor a closer goroutine", fname, w.Name)
-				return
-			}
-		}
-	}
-	// inner manager: direct calls in Run itself
-	var direct []*ssa.Call
-	allInstrs(fn, func(in ssa.Instruction) {
-		if call, ok := in.(*ssa.Call); ok && x.isInnerRunCall(call) {
-			direct = append(direct, call)
-		}
-	})
-	if len(inner)+len(direct) == 0 {
-		r.Violation("C12.K3-order", fname+" inner manager", p.Pos(fn.Pos()), "Run no longer runs the inner RunnerManager: the runners never run")
-		return
-	}
-	if len(closers) == 0 {
-		r.Undecide("%s: no goroutine calls an element of RunnerCloserManager.closers (closers restructured)", fname)
-		return
-	}
-
-	// result channel
-	var ch *ssa.MakeChan
-	chOK := true
-	for _, w := range append(append([]*c12Worker{}, inner...), closers...) {
-		allInstrs(w.Fn, func(in ssa.Instruction) {
-			if s, ok := in.(*ssa.Send); ok {
-				mk, _ := c12ChanRoot(s.Chan, w.Bind)
-				if mk == nil || mk.Parent() != fn || (ch != nil && mk != ch) {
-					chOK = false
-					return
-				}
-				ch = mk
+// callsAnchor: the tree of fn contains a static call to anchor.
+func (x *c12) callsAnchor(fn *ssa.Function, anchor *ssa.Function) bool {
+	found := false
+	for f := range x.tree(fn) {
+		allInstrs(f, func(in ssa.Instruction) {
+			if c, ok := in.(*ssa.Call); ok && staticCallee(c) == anchor {
+				found = true
 			}
 		})
 	}
-	if !chOK || ch == nil {
-		r.Undecide("%s: the goroutines do not report on one channel made in Run", fname)
-		return
-	}
-	isChW := func(w *c12Worker) func(ssa.Value) bool {
-		return func(v ssa.Value) bool { mk, _ := c12ChanRoot(v, w.Bind); return mk == ch }
-	}
-	isChRun := func(v ssa.Value) bool { mk, _ := c12ChanRoot(v, nil); return mk == ch }
-	recvs, rok := c12Recvs(x, fn, isChRun)
-	if !rok {
-		r.Undecide("%s collects results through a select or comma-ok receive", fname)
-		return
-	}
-
-	var spawns []*ssa.Go
-	// inner goroutine(s): Run called once, its result sent once
-	for _, w := range inner {
-		spawns = append(spawns, w.Go)
-		res := c12WorkerFlow(x, w, x.isInnerRunCall, isChW(w), nil)
-		probs := append([]string{}, res.Problems...)
-		for _, s := range res.Sends {
-			if len(res.Tasks) != 1 || !c12OnlyRoot(s.X, w.Bind, res.Tasks[0]) {
-				probs = append(probs, "the value sent at "+x.pos(s)+" is not the result of RunnerManager.Run: the runners' error is lost")
-			}
-		}
-		r.Check(len(probs) == 0, "C12.K3-order", w.Name+" inner manager result", x.pos(w.Go),
-			"inner manager run once; its result sent once, after it returned", strings.Join(probs, "; "))
-	}
-	// the points at which the inner manager is known to have returned
-	var done []ssa.Instruction
-	for _, d := range direct {
-		done = append(done, d)
-	}
-	if len(inner) > 0 {
-		for _, rv := range recvs {
-			if !c12InAnyCycle(rv.Block()) {
-				done = append(done, rv)
-			}
-		}
-	}
-
-	loops := c12Loops(fn)
-	for _, w := range closers {
-		spawns = append(spawns, w.Go)
-		isTask := func(call *ssa.Call) bool {
-			if call.Call.IsInvoke() {
-				return false
-			}
-			_, ok := c12ElemOfField(call.Call.Value, w.Bind, x.cmClosers)
-			return ok
-		}
-		res := c12WorkerFlow(x, w, isTask, isChW(w), nil)
-		probs := append([]string{}, res.Problems...)
-		for _, s := range res.Sends {
-			if len(res.Tasks) != 1 || !c12OnlyRoot(s.X, w.Bind, res.Tasks[0]) {
-				probs = append(probs, "the value sent at "+x.pos(s)+" is not the closer's own result: a closer error is lost")
-			}
-		}
-		r.Check(len(probs) == 0, "C12.K3-order", w.Name+" closer once/send", x.pos(w.Go),
-			"closer called exactly once, its result sent exactly once after it returned", strings.Join(probs, "; "))
-
-		// after the runners
-		after := false
-		for _, d := range done {
-			if instrDominates(d, w.Go) {
-				after = true
-			}
-		}
-		r.Check(after, "C12.K3-order", w.Name+" after runners", x.pos(w.Go),
-			"the closer goroutines are started only after the inner manager's result was received",
-			"the closer goroutine started at "+x.pos(w.Go)+" is not dominated by the receipt of the inner RunnerManager.Run result: closers can run while runners are still running")
-
-		// own element
-		why := ""
-		l := c12LoopOf(loops, w.Go.Block())
-		for _, t := range res.Tasks {
-			ias, _ := c12ElemOfField(t.Call.Value, w.Bind, x.cmClosers)
-			for _, ia := range ias {
-				if l == nil || ia.Index != l.Idx {
-					why = "the closer invoked at " + x.pos(t) + " is not closers[i] for the spawn loop's own index: some closer is invoked twice and another never"
-				}
-			}
-		}
-		r.Check(why == "", "C12.K3-order", w.Name+" own element", x.pos(w.Go), "goroutine i calls closers[i]", why)
-	}
-
-	if len(recvs) == 0 {
-		r.Violation("C12.K3-collect", fname+" started==collected", p.Pos(fn.Pos()), "Run never receives the results: it returns before runners/closers have finished")
-		return
-	}
-	c12CheckCounts(x, fn, "C12.K3-collect", fname+" started==collected", spawns, recvs)
-
-	var allProbs []string
-	var joins []*ssa.Call
-	for _, rv := range recvs {
-		probs, js := c12Collector(x, fn, rv, false, false)
-		allProbs = append(allProbs, probs...)
-		joins = append(joins, js...)
-	}
-	r.Check(len(allProbs) == 0, "C12.K3-collect", fname+" collector", x.pos(recvs[0]),
-		"every collected result (runners and closers) is stored into the slice given to errors.Join", strings.Join(allProbs, "; "))
-	why := c12JoinReturned(x, fn, spawns, joins, x.cmRetErr)
-	r.Check(why == "", "C12.K3-collect", fname+" returns Join", p.Pos(fn.Pos()), "Run returns errors.Join of all collected results (through retErr)", why)
-
-	// K3-lock part 1: closers is read under the lock, and closing is set before
-	// that lock section ends
-	x.checkSnapshot(loops, closers)
+	return found
 }
 
-// checkSnapshot: every load of closers that bounds a spawn/collection loop is
-// made with mngr.lock held, and on no path is mngr.lock released after such a
-// load while closing.Store(true) has not been executed yet. (Setting closing
-// before taking the lock is equally safe, given that AddCloser tests closing
-// and appends inside one section of the same lock.)
-func (x *c12) checkSnapshot(loops []*c12Loop, closers []*c12Worker) {
-	r, p := x.r, x.p
-	fn := x.cmRun
-	fname := FuncName(p, fn)
-	construct := fname + " closers snapshot under lock"
-	reads := map[ssa.Instruction]bool{}
-	badRead := ""
-	for _, l := range loops {
-		if l.LenField != x.cmClosers {
-			continue
-		}
-		if in, ok := l.LenOf.(ssa.Instruction); ok {
-			reads[in] = true
-			if x.e.At(in)[x.lockID] != ModeW {
-				badRead = x.pos(in)
-			}
-		}
+// varargValues returns the elements of the slice value v (a variadic argument,
+// or any slice whose content is known on this path).
+func varargValues(st *xState, f *xFrame, v ssa.Value) ([]xVal, bool) {
+	ev := st.EvalIn(f, v)
+	if ev.K == xNil {
+		return nil, true
 	}
-	if len(reads) == 0 {
-		r.Undecide("%s: no counted loop over RunnerCloserManager.closers", fname)
+	if ev.HasLen && int64(len(ev.Elems)) == ev.Len {
+		return ev.Elems, true
+	}
+	return nil, false
+}
+
+// funcOfValue: the function a closure / method value / function value denotes.
+func funcOfValue(v xVal) *ssa.Function {
+	if v.K != xAtom {
+		return nil
+	}
+	switch t := v.V.(type) {
+	case *ssa.MakeClosure:
+		f, _ := t.Fn.(*ssa.Function)
+		return f
+	case *ssa.Function:
+		return t
+	}
+	return nil
+}
+
+// isStopRunner explores fn (a Runner) and reports whether it returns once the
+// channel closed by Close is closed, and once its own ctx is done.
+func (x *c12) isStopRunner(fn *ssa.Function) (onClose, onDone bool) {
+	if fn == nil || len(fn.Blocks) == 0 {
 		return
 	}
 	const (
-		bStored = 1 << 0
-		bRead   = 1 << 1
-		bReg    = 1 << 2
+		bClose = 1 << 0
+		bDone  = 1 << 1
 	)
-	probs := map[string]bool{}
-	isUnlock := func(ci ssa.CallInstruction) bool {
-		id, kind, ok := x.e.lockOp(ci)
-		return ok && id == x.lockID && kind == opUnlock
+	cl := &xClient{NoInline: x.noInline}
+	isCtxDone := func(st *xState, ch ssa.Value) bool {
+		ev := st.Eval(ch)
+		if ev.K != xAtom {
+			return false
+		}
+		call, ok := ev.V.(*ssa.Call)
+		if !ok || !call.Call.IsInvoke() || call.Call.Method.Name() != "Done" || ev.F == nil {
+			return false
+		}
+		recv := st.EvalIn(ev.F, call.Call.Value)
+		if recv.K != xAtom {
+			return false
+		}
+		pa, ok := recv.V.(*ssa.Parameter)
+		return ok && recv.F != nil && recv.F.parent == nil && namedKey(pa.Type()) == "context.Context"
 	}
-	release := func(st uint64, where string) {
-		c12ForStates(st, func(s int) {
-			if s&bRead != 0 && s&bStored == 0 {
-				probs["mngr.lock is released ("+where+") after closers was snapshotted while closing.Store(true) has not been executed: an AddCloser taking the lock at that moment still sees closing == false and registers a closer that is never invoked"] = true
-			}
-		})
+	cl.OnSelect = func(st *xState, sel *ssa.Select, k int) bool {
+		if k < 0 || k >= len(sel.States) || sel.States[k].Dir != types.RecvOnly {
+			return true
+		}
+		if x.isField(st, sel.States[k].Chan, x.cmCloseCh) {
+			st.Client |= bClose
+		} else if isCtxDone(st, sel.States[k].Chan) {
+			st.Client |= bDone
+		}
+		return true
 	}
-	fl := &c12Flow{Fn: fn, Entry: 1,
-		Instr: func(in ssa.Instruction, replay bool, st uint64) uint64 {
-			if reads[in] {
-				return mapStates(st, func(s int) int { return s | bRead })
-			}
-			switch v := in.(type) {
-			case *ssa.Call:
-				if callIs(v, "sync/atomic", "Bool", "Store") && len(v.Call.Args) == 2 && c12IsConstBool(v.Call.Args[1], true) {
-					if id, _, ok := fieldOfValue(v.Call.Args[0]); ok && id == x.cmClosing {
-						return mapStates(st, func(s int) int { return s | bStored })
-					}
-				}
-				if isUnlock(v) {
-					release(st, x.pos(in))
-				}
-			case *ssa.Defer:
-				if isUnlock(v) {
-					if !replay {
-						return mapStates(st, func(s int) int { return s | bReg })
-					}
-					var sub uint64
-					c12ForStates(st, func(s int) {
-						if s&bReg != 0 {
-							sub |= 1 << uint(s)
-						}
-					})
-					release(sub, "deferred unlock registered at "+x.pos(in))
-				}
-			}
-			return st
-		}}
-	fl.Run()
-	// closing must be set at all (on every return that follows a closer spawn)
-	fl.AtReturns(func(ret *ssa.Return, st uint64) {
-		reach := false
-		for _, w := range closers {
-			if c12Reaches(w.Go.Block(), ret.Block()) {
-				reach = true
+	cl.OnInstr = func(st *xState, in ssa.Instruction, replay bool) bool {
+		if u, ok := in.(*ssa.UnOp); ok && u.Op == token.ARROW {
+			if x.isField(st, u.X, x.cmCloseCh) {
+				st.Client |= bClose
+			} else if isCtxDone(st, u.X) {
+				st.Client |= bDone
 			}
 		}
-		if !reach {
-			return
-		}
-		c12ForStates(st, func(s int) {
-			if s&bStored == 0 {
-				probs["Run can return at "+x.pos(ret)+" without ever setting closing: AddCloser keeps accepting closers that are never invoked"] = true
-			}
-		})
-	})
-	msg := c12Join(probs)
-	if badRead != "" {
-		msg = "closers is read at " + badRead + " (bound of the spawn/collection loop) without holding mngr.lock: an AddCloser during the run can change it between the two loops (a registered closer is not invoked, or Run waits for a result nobody sends)"
+		return true
 	}
-	r.Check(msg == "", "C12.K3-lock", construct, p.Pos(fn.Pos()), "closers is read under mngr.lock and closing is set before that lock section ends", msg)
+	cl.OnReturn = func(st *xState, ret *ssa.Return, _ []xVal) {
+		// a return reached having waited only for one of the two events
+		if st.Client == bClose {
+			onClose = true
+		}
+		if st.Client == bDone {
+			onDone = true
+		}
+	}
+	ex := newXplorer(x.p, x.ssaPkg, cl)
+	ex.Explore(fn, nil, 0)
+	return
 }
 
-// checkLocking: writes of closers under the lock; AddCloser decides under the lock.
+func (x *c12) checkCloserRun() {
+	p := x.p
+	fn := x.cmRun
+	fname := FuncName(p, fn)
+	cOnce := fname + " once-guard"
+	cOrder := fname + " closers after runners"
+	cOwn := fname + " one goroutine per closer"
+	cCount := fname + " started==collected"
+	cColl := fname + " collector"
+	cJoin := fname + " returns Join"
+	cSnap := fname + " closers snapshot under lock"
+	cStop := fname + " close(stopped) guarded"
+	cRet := fname + " retErr then close(stopped)"
+	cStopR := fname + " stop runner on closeCh"
+	cFatal := fname + " release of the fatal closer when one result outstanding"
+	for _, rc := range [][2]string{{"C12.K0-once", cOnce}, {"C12.K3-order", cOrder}, {"C12.K3-order", cOwn}, {"C12.K3-collect", cCount}, {"C12.K3-collect", cColl},
+		{"C12.K3-collect", cJoin}, {"C12.K3-lock", cSnap}, {"C12.K4-stopped", cStop}, {"C12.K4-stopped", cRet}, {"C12.K4-closech", cStopR}, {"C12.K5-fatal", cFatal}} {
+		x.seen(rc[0], rc[1], p.Pos(fn.Pos()))
+	}
+
+	cache := c12SpawnCache{}
+	classify := func(f *ssa.Function) (c12WorkerKind, FieldID, bool) {
+		inner := x.callsAnchor(f, x.rmRun)
+		closer := false
+		for g := range x.tree(f) {
+			allInstrs(g, func(in ssa.Instruction) {
+				if c, ok := in.(*ssa.Call); ok && !c.Call.IsInvoke() {
+					if sig, ok := c.Call.Value.Type().Underlying().(*types.Signature); ok && sig.Params().Len() == 0 && sig.Results().Len() == 1 {
+						switch c.Call.Value.(type) {
+						case *ssa.Function, *ssa.MakeClosure, *ssa.Builtin:
+						default:
+							closer = true
+						}
+					}
+				}
+			})
+		}
+		switch {
+		case inner:
+			return wkInner, FieldID{}, true
+		case closer:
+			return wkCloser, x.cmClosers, true
+		}
+		return 0, FieldID{}, false
+	}
+	stopCache := map[*ssa.Function][2]bool{}
+
+	const (
+		bOwn       = 1 << 0
+		bStopReg   = 1 << 1
+		bInnerGo   = 1 << 2
+		bInnerDone = 1 << 3
+		shMask     = 4  // 4 bits closers started
+		shRes      = 8  // 3 bits closer results received
+		shFatal    = 11 // 2 bits closes of the release channel
+		bLocked    = 1 << 13
+		bClosing   = 1 << 14
+		bRead      = 1 << 15
+		bRetErr    = 1 << 16
+		bStopped   = 1 << 17
+		bEAct      = 1 << 18
+		shENil     = 19
+		bEApp      = 1 << 21
+		bAnyGo     = 1 << 22
+		bJoinOK    = 1 << 23
+		// bFence: closing was set and the lock was held at or acquired after that
+		// moment: every AddCloser append is ordered before, every later AddCloser
+		// is refused — the closers are frozen and may be read without the lock
+		bFence   = 1 << 24
+		bJoinNil = 1 << 25
+	)
+	sawGo, sawTAS, sawInner, sawCloserGo, sawStopClose, sawStopReg := false, false, false, false, false, false
+	var resultChan ssa.Value
+
+	for m := 0; m <= 2; m++ {
+		for n := 0; n <= 4; n++ {
+			if m != 1 && n > 1 {
+				continue // the number of runners only matters for the stop runner
+			}
+			m, n := m, n
+			isE := func(v xVal) bool {
+				if v.K != xAtom {
+					return false
+				}
+				if u, ok := v.V.(*ssa.UnOp); ok && u.Op == token.ARROW {
+					return true
+				}
+				if ex, ok := v.V.(*ssa.Extract); ok && ex.Index >= 2 {
+					if _, isSel := ex.Tuple.(*ssa.Select); isSel {
+						return true
+					}
+				}
+				c, ok := v.V.(*ssa.Call)
+				return ok && staticCallee(c) == x.rmRun
+			}
+			verifyE := func(st *xState, where string) {
+				if st.Client&bEAct == 0 || st.Client&bEApp != 0 {
+					return
+				}
+				if int(st.Client>>shENil)&3 == c12Yes {
+					return
+				}
+				x.bad("C12.K3-collect", cColl, "", "a collected result (of the runners or of a closer) that is not known to be nil does not reach errors.Join ("+where+"): that error is missing from the error Run and Close return")
+			}
+			release := func(st *xState, where string) {
+				if st.Client&bRead != 0 && st.Client&bClosing == 0 {
+					x.bad("C12.K3-lock", cSnap, "", "the inner manager's lock is released ("+where+") after the closers were read while the closing flag has not been set: an AddCloser taking the lock at that moment still sees closing == false and registers a closer that is never invoked")
+				}
+				st.Client &^= bLocked
+			}
+			closeStopped := func(st *xState, in ssa.Instruction) {
+				sawStopClose = true
+				if st.Client&bOwn == 0 {
+					x.bad("C12.K4-stopped", cStop, x.pos(in), "the shutdown channel is closed on a path on which this call's test-and-set of running did not succeed: Run and Close (or two Run calls) can both close it — panic")
+				}
+				if st.Client&bStopped != 0 {
+					x.bad("C12.K4-stopped", cStop, x.pos(in), "the shutdown channel can be closed twice by one Run")
+				}
+				if st.Client&bRetErr == 0 && st.Client&bOwn != 0 {
+					x.bad("C12.K4-stopped", cRet, x.pos(in), "Run can close the shutdown channel (at "+x.pos(in)+") without having stored the joined error in the field Close returns: Close returns nil instead of the joined error")
+				}
+				st.Client |= bStopped
+			}
+			cl := &xClient{Lens: map[FieldID]int{x.cmClosers: n, x.rmRunners: m}, NoInline: func(f *ssa.Function) bool { return x.anchors[f] && f != fn }}
+			cl.OnBranch = func(st *xState, ifi *ssa.If, cond xVal, truth bool) bool {
+				if x.tasTried(cond, x.cmRunning) {
+					sawTAS = true
+				}
+				if x.tasWon(cond, truth, x.cmRunning) {
+					st.Client |= bOwn
+				}
+				if joinNilFact(cond, truth) == 1 {
+					st.Client |= bJoinNil
+				}
+				if st.Client&bEAct != 0 {
+					if fnn, _ := x.errFacts(st, cond, truth, isE); fnn != c12Unk {
+						nn := int(st.Client>>shENil) & 3
+						if nn != c12Unk && nn != fnn {
+							return false
+						}
+						st.Client = st.Client&^(3<<shENil) | uint64(fnn)<<shENil
+					}
+				}
+				return true
+			}
+			newE := func(st *xState, where string) {
+				verifyE(st, where)
+				st.Client &^= bEApp | 3<<shENil
+				st.Client |= bEAct
+			}
+			registerRunners := func(st *xState, vals []xVal, in ssa.Instruction) {
+				for _, val := range vals {
+					f := funcOfValue(val)
+					if f == nil {
+						continue
+					}
+					res, seen := stopCache[f]
+					if !seen {
+						a, b := x.isStopRunner(f)
+						res = [2]bool{a, b}
+						stopCache[f] = res
+					}
+					if res[0] {
+						sawStopReg = true
+						if !res[1] {
+							x.bad("C12.K4-closech", cStopR, x.pos(in), "the runner registered at "+x.pos(in)+" returns when Close is called but not when its own ctx is done: once the user's runners have all returned it keeps the inner manager (and so Run) from returning until Close is called")
+						}
+						st.Client |= bStopReg
+					}
+				}
+			}
+			onRecv := func(st *xState, in ssa.Instruction, chv ssa.Value, commaOk bool) bool {
+				ch := st.Eval(chv)
+				if ch.K != xAtom || resultChan == nil || ch.V != resultChan {
+					return true
+				}
+				if commaOk {
+					x.undecide("%s collects results through a comma-ok receive", fname)
+				}
+				if st.Client&bInnerDone == 0 {
+					if st.Client&bInnerGo == 0 {
+						x.bad("C12.K3-collect", cCount, x.pos(in), "Run receives a result at "+x.pos(in)+" before any goroutine was started: it waits forever")
+						return false
+					}
+					st.Client |= bInnerDone
+					newE(st, "before the receive at "+x.pos(in))
+					return true
+				}
+				res := int(st.Client>>shRes) & 7
+				started := 0
+				for i := 0; i < 4; i++ {
+					if st.Client&(1<<(shMask+uint(i))) != 0 {
+						started++
+					}
+				}
+				if res >= started {
+					x.bad("C12.K3-collect", cCount, x.pos(in), fmt.Sprintf("with %d closers Run receives a result at %s although %d closer goroutines were started and %d results already received: it waits forever for a result nobody sends", n, x.pos(in), started, res))
+					return false
+				}
+				if res == n-1 && (st.Client>>shFatal)&3 == 0 {
+					x.bad("C12.K5-fatal", cFatal, x.pos(in), fmt.Sprintf("with %d closers Run waits at %s for the last outstanding closer result without having released the fatal closer: if that closer is the fatal-shutdown closer itself (always so when it is the only closer) Run and Close hang until the grace timer expires and the fatal action fires although no closer was pending", n, x.pos(in)))
+				}
+				res++
+				st.Client = st.Client&^(7<<shRes) | uint64(res)<<shRes
+				newE(st, "before the receive at "+x.pos(in))
+				return true
+			}
+			cl.OnSelect = func(st *xState, sel *ssa.Select, k int) bool {
+				if k >= 0 && k < len(sel.States) && sel.States[k].Dir == types.RecvOnly {
+					return onRecv(st, sel, sel.States[k].Chan, false)
+				}
+				return true
+			}
+			cl.OnInstr = func(st *xState, in ssa.Instruction, replay bool) bool {
+				if ci, ok := in.(ssa.CallInstruction); ok {
+					if _, isDefer := in.(*ssa.Defer); !isDefer || replay {
+						switch x.lockOp(ci) {
+						case 1:
+							st.Client |= bLocked
+							st.Client &^= bRead
+							if st.Client&bClosing != 0 {
+								st.Client |= bFence
+							}
+						case -1:
+							release(st, "unlock at "+x.pos(in))
+						}
+						if x.closeOf(st, in, x.cmStopped) {
+							closeStopped(st, in)
+						}
+						if x.closeOf(st, in, x.cmCloseFatal) && n >= 1 {
+							res := int(st.Client>>shRes) & 7
+							k := int(st.Client>>shFatal) & 3
+							if k >= 1 {
+								x.bad("C12.K5-fatal", cFatal, x.pos(in), fmt.Sprintf("with %d closers the release channel of the fatal closer is closed a second time at %s: panic", n, x.pos(in)))
+							} else if res != n-1 {
+								x.bad("C12.K5-fatal", cFatal, x.pos(in), fmt.Sprintf("with %d closers the release channel of the fatal closer is closed at %s when %d closer results have been received instead of %d: too early and the fatal closer is released while other closers are still running (they can outlast the grace period without the fatal action)", n, x.pos(in), res, n-1))
+							}
+							if k < 3 {
+								k++
+							}
+							st.Client = st.Client&^(3<<shFatal) | uint64(k)<<shFatal
+						}
+					}
+				}
+				switch v := in.(type) {
+				case *ssa.Call:
+					if c, ok := x.flagCall(v, x.cmClosing, "Store"); ok && len(c.Call.Args) == 2 && c12IsConstBool(c.Call.Args[1], true) {
+						st.Client |= bClosing
+						if st.Client&bLocked != 0 {
+							st.Client |= bFence
+						}
+					}
+					switch staticCallee(v) {
+					case x.rmAdd:
+						if len(v.Call.Args) >= 2 {
+							vals, ok := varargValues(st, st.fr, v.Call.Args[1])
+							if !ok {
+								x.undecide("%s: cannot see which runners are added to the inner manager at %s", fname, x.pos(in))
+							}
+							registerRunners(st, vals, in)
+						}
+					case x.rmRun:
+						// the inner manager run synchronously
+						sawInner = true
+						x.innerStart(st, in, m, bStopReg, bOwn, cOnce, cStopR)
+						st.Client |= bInnerGo | bInnerDone
+						newE(st, "before "+x.pos(in))
+					}
+				case *ssa.Go:
+					sawGo = true
+					if st.Client&bOwn == 0 {
+						x.bad("C12.K0-once", cOnce, x.pos(in), "the goroutine started at "+x.pos(in)+" can be reached without this call's own test-and-set of the running flag having succeeded: a second Run, or a Run after Close, would start the runners and closers again")
+					}
+					w := x.workerOf(st, v, cache, classify)
+					if w == nil {
+						return true
+					}
+					for _, c := range w.Chans {
+						ev := evalSpawnerSide(st, c, v)
+						if _, isMk := ev.V.(*ssa.MakeChan); ev.K != xAtom || !isMk || (resultChan != nil && resultChan != ev.V) {
+							x.undecide("%s: the goroutines do not report on one channel made in Run", fname)
+							continue
+						}
+						resultChan = ev.V
+					}
+					switch w.Kind {
+					case wkInner:
+						sawInner = true
+						x.innerStart(st, in, m, bStopReg, bOwn, cOnce, cStopR)
+						if st.Client&bInnerGo != 0 {
+							x.bad("C12.K3-order", cOrder, x.pos(in), "the inner manager is started twice")
+						}
+						st.Client |= bInnerGo
+					case wkCloser:
+						sawCloserGo = true
+						if st.Client&bInnerDone == 0 {
+							x.bad("C12.K3-order", cOrder, x.pos(in), "the closer goroutine started at "+x.pos(in)+" can be reached before the result of the inner RunnerManager.Run was received: closers can run while runners are still running")
+						}
+						if w.Tasks == 0 || w.Unknown != "" {
+							return true
+						}
+						for _, tv := range w.TaskVals {
+							ev := evalSpawnerSide(st, tv, v)
+							if ev.K == xElem && ev.Base != nil && ev.Base.K == xField && ev.Base.Fld == x.cmClosers && ev.Idx != nil && ev.Idx.K == xInt && ev.Idx.I >= 0 && ev.Idx.I < 4 {
+								bit := uint64(1) << (shMask + uint(ev.Idx.I))
+								if st.Client&bit != 0 {
+									x.bad("C12.K3-order", cOwn, x.pos(in), fmt.Sprintf("with %d closers, closer %d is invoked by two goroutines (go statement at %s)", n, ev.Idx.I, x.pos(in)))
+								}
+								st.Client |= bit
+							} else {
+								x.undecide("%s: cannot tell which closer the goroutine started at %s invokes (%s)", fname, x.pos(in), ev.String())
+							}
+						}
+					}
+				case *ssa.UnOp:
+					switch v.Op {
+					case token.MUL:
+						if fa, ok := v.X.(*ssa.FieldAddr); ok && fieldIDOfAddr(fa) == x.cmClosers && st.Client&bInnerDone != 0 {
+							if st.Client&bLocked == 0 && st.Client&bFence == 0 {
+								x.bad("C12.K3-lock", cSnap, x.pos(in), "the closers are read at "+x.pos(in)+" after the runners returned, neither holding the inner manager's lock nor after closing was set inside / before a section of that lock: an AddCloser during the run can change them between the start of the closers and the collection of their results (a registered closer is not invoked, or Run waits for a result nobody sends)")
+							}
+							st.Client |= bRead
+						}
+					case token.ARROW:
+						return onRecv(st, in, v.X, v.CommaOk)
+					}
+				case *ssa.Store:
+					if fa, ok := v.Addr.(*ssa.FieldAddr); ok && fieldIDOfAddr(fa) == x.rmRunners {
+						// RunnerManager.Add inlined: runners = append(runners, …)
+						if ev := st.Eval(v.Val); ev.AppendedOK {
+							registerRunners(st, ev.Appended, in)
+						}
+					}
+					if fa, ok := v.Addr.(*ssa.FieldAddr); ok && fieldIDOfAddr(fa) == x.cmRetErr {
+						if st.Client&bStopped != 0 {
+							x.bad("C12.K4-stopped", cRet, x.pos(in), "the joined error is stored at "+x.pos(in)+" after the shutdown channel was closed: a Close call released by it can read the old value")
+						}
+						st.Client |= bRetErr
+						if isJoinCall(st.Eval(v.Val)) {
+							st.Client |= bJoinOK
+						} else {
+							x.bad("C12.K3-collect", cJoin, x.pos(in), "the value stored at "+x.pos(in)+" in the field Close returns is not the errors.Join of the collected results")
+						}
+					}
+					if st.Client&bEAct != 0 && isE(st.Eval(v.Val)) && x.joinStore(v) {
+						st.Client |= bEApp
+					}
+				}
+				return true
+			}
+			cl.OnReturn = func(st *xState, ret *ssa.Return, res []xVal) {
+				if st.Client&bOwn == 0 {
+					return
+				}
+				verifyE(st, "return at "+x.pos(ret))
+				mask := int(st.Client>>shMask) & 15
+				if want := (1 << uint(n)) - 1; mask != want && sawCloserGo {
+					for i := 0; i < n; i++ {
+						if mask&(1<<uint(i)) == 0 {
+							x.bad("C12.K3-order", cOwn, x.pos(ret), fmt.Sprintf("with %d closers Run can return at %s without having started a goroutine for closer %d: a registered closer is never invoked", n, x.pos(ret), i))
+							break
+						}
+					}
+				}
+				started := 0
+				for i := 0; i < 4; i++ {
+					if mask&(1<<uint(i)) != 0 {
+						started++
+					}
+				}
+				if rc := int(st.Client>>shRes) & 7; rc != started {
+					x.bad("C12.K3-collect", cCount, x.pos(ret), fmt.Sprintf("with %d closers Run can return at %s having started %d closer goroutines but received %d of their results: it returns (and releases Close) while a closer is still running, and that goroutine may block forever on its send", n, x.pos(ret), started, rc))
+				}
+				if st.Client&bInnerGo != 0 && st.Client&bInnerDone == 0 {
+					x.bad("C12.K3-collect", cCount, x.pos(ret), "Run can return at "+x.pos(ret)+" without having received the result of the inner manager")
+				}
+				if n >= 1 && (st.Client>>shFatal)&3 == 0 && sawCloserGo {
+					x.bad("C12.K5-fatal", cFatal, x.pos(ret), fmt.Sprintf("with %d closers Run returns at %s without ever closing the release channel of the fatal closer: that closer ends only through its timer, so Run lasts the whole grace period and the fatal action fires although the closers finished in time", n, x.pos(ret)))
+				}
+				if st.Client&bStopped == 0 {
+					x.bad("C12.K4-stopped", cRet, x.pos(ret), "Run can return at "+x.pos(ret)+" after winning running without closing the shutdown channel: Close / WaitUntilShutdown block forever")
+				}
+				if st.Client&bClosing == 0 && sawCloserGo {
+					x.bad("C12.K3-lock", cSnap, x.pos(ret), "Run can return at "+x.pos(ret)+" without ever setting the closing flag: AddCloser keeps accepting closers that are never invoked")
+				}
+				if len(res) == 1 && st.Client&bInnerGo != 0 {
+					if !isJoinCall(res[0]) && !(res[0].K == xNil && st.Client&bJoinNil != 0) {
+						x.bad("C12.K3-collect", cJoin, x.pos(ret), "the return at "+x.pos(ret)+" does not return the errors.Join of the collected results")
+					}
+				}
+			}
+			ex := newXplorer(p, x.ssaPkg, cl)
+			ex.Explore(fn, nil, 0)
+			if ex.Overflow {
+				x.undecide("%s: path exploration exceeded its budget (runners=%d closers=%d)", fname, m, n)
+			}
+		}
+	}
+	if !sawGo {
+		x.bad("C12.K0-once", cOnce, p.Pos(fn.Pos()), "Run no longer starts any goroutine")
+	}
+	if !sawTAS {
+		x.bad("C12.K0-once", cOnce, p.Pos(fn.Pos()), "Run no longer takes ownership with an atomic test-and-set of the running flag (CompareAndSwap(false,true) / Swap(true)): a second Run, or a Run racing Close, would run the manager again and close the shutdown channel twice")
+	}
+	if !sawInner {
+		x.bad("C12.K3-order", cOrder, p.Pos(fn.Pos()), "Run no longer runs the inner RunnerManager: the runners never run")
+	}
+	if !sawCloserGo {
+		x.undecide("%s: no goroutine calls an element of the closers (closers restructured)", fname)
+	}
+	if !sawStopClose {
+		x.bad("C12.K4-stopped", cStop, p.Pos(fn.Pos()), "Run never closes the shutdown channel: Close and WaitUntilShutdown never return")
+	}
+	if !sawStopReg {
+		x.bad("C12.K4-closech", cStopR, p.Pos(fn.Pos()), "Run no longer adds to the inner manager a runner that returns when Close is called: Close during Run cannot stop the runners and blocks until they end by themselves")
+	}
+	cInner := fname + " inner manager result"
+	cCloserW := fname + " closer goroutine once/send"
+	x.seen("C12.K3-order", cInner, p.Pos(fn.Pos()))
+	x.seen("C12.K3-order", cCloserW, p.Pos(fn.Pos()))
+	for _, w := range cache {
+		if w == nil {
+			continue
+		}
+		pos := p.Pos(w.Fn.Pos())
+		if w.Unknown != "" {
+			x.undecide("%s: %s", w.Name, w.Unknown)
+			continue
+		}
+		construct := cCloserW
+		if w.Kind == wkInner {
+			construct = cInner
+		} else if w.Tasks == 0 {
+			x.undecide("goroutine %s does not call an element of the closers", w.Name)
+			continue
+		}
+		for msg := range w.Problems {
+			x.bad("C12.K3-order", construct, pos, w.Name+": "+msg)
+		}
+	}
+}
+
+// innerStart: checks made at the point where the inner manager is started.
+func (x *c12) innerStart(st *xState, in ssa.Instruction, m int, bStopReg, bOwn uint64, cOnce, cStopR string) {
+	if m >= 1 && st.Client&bStopReg == 0 {
+		x.bad("C12.K4-closech", cStopR, x.pos(in), fmt.Sprintf("with %d runner(s) the inner manager is started at %s without a runner that returns when Close is called having been registered: Close during Run does not stop the runners (it blocks until they end by themselves)", m, x.pos(in)))
+	}
+	if st.Client&bOwn == 0 {
+		x.bad("C12.K0-once", cOnce, x.pos(in), "the inner manager is run at "+x.pos(in)+" on a path on which this call's test-and-set of running did not succeed")
+	}
+}
+
+// checkLocking: writes of the closers under the lock; AddCloser decides under the lock.
 func (x *c12) checkLocking() {
 	r, p := x.r, x.p
+	// writes of the closers: inside AddCloser's call tree the path exploration
+	// below decides (the lock must be held on every path reaching the write);
+	// anywhere else the lockset engine decides.
+	addTree := x.tree(x.cmAddCloser)
+	cW := FuncName(p, x.cmAddCloser) + " write closers"
+	x.seen("C12.K3-lock", cW, p.Pos(x.cmAddCloser.Pos()))
 	for _, fn := range p.FuncsOfPkg("concurrency") {
+		if addTree[fn] {
+			continue
+		}
 		for _, a := range FieldAccesses(fn, func(id FieldID) bool { return id == x.cmClosers }) {
 			if a.Kind != AccWrite || a.Fresh {
 				continue
 			}
 			r.Check(x.e.At(a.Instr)[x.lockID] == ModeW, "C12.K3-lock", FuncName(p, fn)+" write closers", x.pos(a.Instr),
-				"closers written under mngr.lock",
-				"closers is written without mngr.lock: Run's snapshot of the closers (taken under that lock) can miss or tear a concurrent registration")
+				"closers written under the inner manager's lock",
+				"the closers are written without the inner manager's lock: Run's snapshot of the closers (taken under that lock) can miss or tear a concurrent registration")
 		}
 	}
-	// AddCloser: closing tested under the lock on the way to every append
-	c12CheckFlagUnderLock(x, x.cmAddCloser, "C12.K3-lock", x.cmClosing, x.cmClosers,
-		"Run sets closing and snapshots closers inside one mngr.lock section that lasts until Run returns; an AddCloser that tested closing before that section and acquires the lock after it appends a closer that is never invoked, yet returns nil")
+	x.flagUnderLock(x.cmAddCloser, "C12.K3-lock", x.cmClosing, x.cmClosers, x.rmLock, x.noInline,
+		"Run sets closing and reads the closers inside one section of the inner manager's lock that lasts until Run returns; an AddCloser that tested closing before that section and acquires the lock after it appends a closer that is never invoked, yet returns nil")
 }
 
-// c12CheckFlagUnderLock: in fn every write of `data` is dominated by an edge on
-// which flag.Load() returned false, the Load having been made with x.lockID
-// held in write mode (the lock section continues to the write: the write
-// itself must hold the lock, which the guarded-write rule checks).
-func c12CheckFlagUnderLock(x *c12, fn *ssa.Function, rule string, flag, data FieldID, why string) {
-	r, p := x.r, x.p
-	construct := FuncName(p, fn) + " " + flag.Field + " tested under lock"
-	var lockedUnset []c12Edge
-	for _, e := range c12UnsetEdges(fn, flag) {
-		if x.e.At(e.Call)[x.lockID] == ModeW {
-			lockedUnset = append(lockedUnset, e)
-		}
+// flagUnderLock explores fn: every store to field `data` must be preceded, on
+// every path, by a branch on flag.Load()==false whose Load was executed with
+// `lock` held, the lock not having been released since.
+func (x *c12) flagUnderLock(fn *ssa.Function, rule string, flag, data, lock FieldID, noInline func(*ssa.Function) bool, why string) {
+	p := x.p
+	construct := FuncName(p, fn) + " " + "closing tested under lock"
+	if flag.Field != x.cmClosing.Field || fn != x.cmAddCloser {
+		construct = FuncName(p, fn) + " flag tested under lock"
 	}
-	n, bad := 0, ""
-	var badPos ssa.Instruction
-	for _, a := range FieldAccesses(fn, func(id FieldID) bool { return id == data }) {
-		if a.Kind != AccWrite {
-			continue
+	x.seen(rule, construct, p.Pos(fn.Pos()))
+	const (
+		bLocked   = 1 << 0
+		bLoadLock = 1 << 1 // most recent Load of the flag was made under the lock, not released since
+		bUnset    = 1 << 2 // …and was seen false
+	)
+	isLockOp := func(ci ssa.CallInstruction) int {
+		obj := calleeObj(ci)
+		if obj == nil || ci.Common().IsInvoke() || len(ci.Common().Args) == 0 {
+			return 0
 		}
-		n++
-		ok := false
-		for _, e := range lockedUnset {
-			// same critical section: the lock is held at the write too, and was
-			// not released in between (no unlock of it is reachable after the
-			// Load and before the write other than through re-acquisition)
-			if e.Dominates(a.Instr.Block()) && x.e.At(a.Instr)[x.lockID] == ModeW && !c12UnlockBetween(x, e.Call, a.Instr) {
-				ok = true
+		if id, _, ok := fieldOfValue(ci.Common().Args[0]); !ok || id != lock {
+			return 0
+		}
+		switch obj.Name() {
+		case "Lock":
+			return 1
+		case "Unlock":
+			return -1
+		}
+		return 0
+	}
+	nW := 0
+	cl := &xClient{ParamLen: 2, NoInline: func(f *ssa.Function) bool { return noInline != nil && noInline(f) && f != fn }}
+	cl.OnInstr = func(st *xState, in ssa.Instruction, replay bool) bool {
+		if ci, ok := in.(ssa.CallInstruction); ok {
+			if _, isDefer := in.(*ssa.Defer); !isDefer || replay {
+				switch isLockOp(ci) {
+				case 1:
+					st.Client |= bLocked
+				case -1:
+					st.Client &^= bLocked | bLoadLock | bUnset
+				}
 			}
 		}
-		if !ok {
-			badPos = a.Instr
-			bad = FuncName(p, fn) + " writes " + data.Field + " at " + x.pos(a.Instr) + " without having observed " + flag.Field + " == false inside the same section of the lock. " + why
+		if call, ok := in.(*ssa.Call); ok {
+			if _, isLoad := x.flagCall(call, flag, "Load"); isLoad {
+				st.Client &^= bLoadLock | bUnset
+				if st.Client&bLocked != 0 {
+					st.Client |= bLoadLock
+				}
+			}
 		}
+		if s, ok := in.(*ssa.Store); ok {
+			if fa, ok := s.Addr.(*ssa.FieldAddr); ok && fieldIDOfAddr(fa) == data {
+				nW++
+				if st.Client&bLocked == 0 && fn == x.cmAddCloser {
+					x.bad(rule, FuncName(p, fn)+" write closers", x.pos(in), "the closers are written at "+x.pos(in)+" on a path that does not hold the inner manager's lock: Run's snapshot of the closers (taken under that lock) can miss or tear a concurrent registration")
+				}
+				if st.Client&bUnset == 0 || st.Client&bLocked == 0 {
+					x.bad(rule, construct, x.pos(in), FuncName(p, fn)+" writes "+data.Field+" at "+x.pos(in)+" on a path on which it has not observed "+flag.Field+" == false inside the same section of the lock. "+why)
+				}
+			}
+		}
+		return true
 	}
-	if n == 0 {
-		r.Undecide("%s no longer stores to %s", FuncName(p, fn), data.Field)
-		return
+	cl.OnBranch = func(st *xState, ifi *ssa.If, cond xVal, truth bool) bool {
+		if x.loadIs(cond, flag) && !truth && st.Client&bLoadLock != 0 {
+			st.Client |= bUnset
+		}
+		return true
 	}
-	pos := p.Pos(fn.Pos())
-	if badPos != nil {
-		pos = x.pos(badPos)
+	ex := newXplorer(p, x.ssaPkg, cl)
+	ex.Explore(fn, nil, 0)
+	if nW == 0 {
+		x.undecide("%s no longer stores to %s", FuncName(p, fn), data.Field)
 	}
-	r.Check(bad == "", rule, construct, pos, "every write is dominated by a "+flag.Field+".Load()==false made under the lock, in the same lock section", bad)
 }
 
-// c12UnlockBetween: some explicit (non-deferred) unlock of x.lockID lies on a
-// path from a to b.
-func c12UnlockBetween(x *c12, a, b ssa.Instruction) bool {
-	found := false
-	allInstrs(a.Parent(), func(in ssa.Instruction) {
-		call, ok := in.(*ssa.Call)
-		if !ok {
-			return
-		}
-		id, kind, ok := x.e.lockOp(call)
-		if !ok || id != x.lockID || kind != opUnlock {
-			return
-		}
-		afterA := (in.Block() == a.Block() && instrIndex(a) < instrIndex(in)) || (in.Block() != a.Block() && c12Reaches(a.Block(), in.Block()))
-		beforeB := (in.Block() == b.Block() && instrIndex(in) < instrIndex(b)) || (in.Block() != b.Block() && c12Reaches(in.Block(), b.Block()))
-		if afterA && beforeB {
-			found = true
-		}
-	})
-	return found
-}
-
-// checkWrappers: every value AddCloser appends to closers is the registered
-// value itself, its bound Close method, or a closure that calls the
-// registered value exactly once on every path and returns that call's error
-// (when it has one).
+// checkWrappers: every value AddCloser appends to the closers is the
+// registered value itself, its bound Close method, or a closure that calls the
+// registered value exactly once on every path and returns that call's error.
 func (x *c12) checkWrappers() {
-	r, p := x.r, x.p
+	p := x.p
 	fn := x.cmAddCloser
 	fname := FuncName(p, fn)
-	isAsserted := func(v ssa.Value, bind c12Bind) (string, bool) {
-		rs := c12Roots(v, bind)
+	assertedName := func(v ssa.Value) (string, bool) {
+		rs := c12Roots(v, nil)
 		if len(rs) == 0 {
 			return "", false
 		}
@@ -407,116 +699,123 @@ func (x *c12) checkWrappers() {
 		return name, true
 	}
 	n := 0
-	allInstrs(fn, func(in ssa.Instruction) {
-		st, ok := in.(*ssa.Store)
+	done := map[ssa.Value]bool{}
+	classifyVal := func(st *xState, val xVal, in ssa.Instruction) {
+		if val.K == xNil {
+			return
+		}
+		if val.K != xAtom || val.V == nil {
+			x.undecide("%s: cannot resolve a value appended to the closers at %s", fname, x.pos(in))
+			return
+		}
+		if done[val.V] {
+			return
+		}
+		done[val.V] = true
+		n++
+		if name, ok := assertedName(val.V); ok {
+			x.seen("C12.K3-wrap", fname+" registers "+name, x.pos(in))
+			return
+		}
+		var w *ssa.Function
+		mc, _ := val.V.(*ssa.MakeClosure)
+		if mc != nil {
+			w, _ = mc.Fn.(*ssa.Function)
+		} else if f, isFn := val.V.(*ssa.Function); isFn && f.Parent() != nil {
+			w = f
+		}
+		if w == nil || len(w.Blocks) == 0 {
+			x.undecide("%s: value appended to the closers at %s is not a closure over the registered value", fname, x.pos(in))
+			return
+		}
+		if mc != nil && w.Synthetic != "" && len(mc.Bindings) == 1 {
+			if name, ok := assertedName(mc.Bindings[0]); ok {
+				x.seen("C12.K3-wrap", fname+" registers "+name, x.pos(in))
+				return
+			}
+			x.undecide("%s: bound method appended at %s is not a method of the registered value", fname, x.pos(in))
+			return
+		}
+		// explore the wrapper: calls of the captured registered value
+		name := ""
+		var theCall *ssa.Call
+		construct := ""
+		probs := map[string]bool{}
+		wcl := &xClient{NoInline: x.noInline}
+		wcl.OnInstr = func(ws *xState, win ssa.Instruction, replay bool) bool {
+			call, ok := win.(*ssa.Call)
+			if !ok {
+				return true
+			}
+			switch call.Call.Value.(type) {
+			case *ssa.Function, *ssa.Builtin:
+				return true
+			}
+			var target ssa.Value = call.Call.Value
+			isReg := false
+			for _, root := range ws.Static(ws.Eval(target)) {
+				if nm, ok := assertedName(root); ok {
+					name, isReg = nm, true
+				}
+			}
+			if !isReg {
+				return true
+			}
+			theCall = call
+			if ws.Client >= 2 {
+				ws.Client = 2
+			} else {
+				ws.Client++
+			}
+			return true
+		}
+		wcl.OnReturn = func(ws *xState, ret *ssa.Return, res []xVal) {
+			if ws.Client != 1 {
+				times := map[uint64]string{0: "0", 2: "2 or more"}[ws.Client]
+				probs["the wrapper stored in the closers can return at "+x.pos(ret)+" having called the registered closer "+times+" times instead of exactly once"] = true
+			}
+			if theCall != nil && theCall.Call.Signature().Results().Len() == 1 && len(res) == 1 && ws.Client == 1 {
+				if !(res[0].K == xAtom && res[0].V == ssa.Value(theCall)) {
+					probs["the wrapper stored in the closers does not return the registered closer's error (return at "+x.pos(ret)+"): that closer error is missing from the joined result"] = true
+				}
+			}
+		}
+		ex := newXplorer(p, x.ssaPkg, wcl)
+		ex.Explore(w, nil, 0)
+		if theCall == nil {
+			x.bad("C12.K3-wrap", fname+" wrapper "+FuncName(p, w), x.pos(in), "the closure appended to the closers never calls the value that was registered: AddCloser returns nil but that closer is never invoked")
+			return
+		}
+		construct = fname + " registers " + name
+		x.seen("C12.K3-wrap", construct, x.pos(in))
+		for m := range probs {
+			x.bad("C12.K3-wrap", construct, x.pos(in), m)
+		}
+	}
+	cl := &xClient{ParamLen: 2, NoInline: func(f *ssa.Function) bool { return x.anchors[f] && f != fn }}
+	cl.OnInstr = func(st *xState, in ssa.Instruction, replay bool) bool {
+		s, ok := in.(*ssa.Store)
 		if !ok {
-			return
+			return true
 		}
-		fa, ok := st.Addr.(*ssa.FieldAddr)
+		fa, ok := s.Addr.(*ssa.FieldAddr)
 		if !ok || fieldIDOfAddr(fa) != x.cmClosers {
-			return
+			return true
 		}
-		app, ok := st.Val.(*ssa.Call)
-		if !ok || builtinName(app) != "append" || len(app.Call.Args) != 2 {
-			r.Undecide("%s stores to closers something other than append(closers, …) at %s", fname, x.pos(in))
-			return
+		ev := st.Eval(s.Val)
+		if !ev.AppendedOK {
+			x.undecide("%s: cannot see the values appended to the closers at %s", fname, x.pos(in))
+			return true
 		}
-		vals := c12VarargVals(app.Call.Args[1])
-		if len(vals) == 0 {
-			r.Undecide("%s: cannot see the values appended to closers at %s", fname, x.pos(in))
-			return
-		}
+		vals := ev.Appended
 		for _, v := range vals {
-			n++
-			if name, ok := isAsserted(v, nil); ok {
-				r.OK("C12.K3-wrap", fname+" registers "+name, x.pos(in), "the registered function itself is stored")
-				continue
-			}
-			var w *ssa.Function
-			mc, _ := v.(*ssa.MakeClosure)
-			if mc != nil {
-				w, _ = mc.Fn.(*ssa.Function)
-			} else if f, isFn := v.(*ssa.Function); isFn && f.Parent() == fn {
-				w = f // a function literal that captures nothing
-			}
-			if w == nil || len(w.Blocks) == 0 {
-				r.Undecide("%s: value appended to closers at %s is not a closure over the registered value", fname, x.pos(in))
-				continue
-			}
-			if mc != nil && w.Synthetic != "" && len(mc.Bindings) == 1 { // bound method wrapper v.Close
-				if name, ok := isAsserted(mc.Bindings[0], nil); ok {
-					r.OK("C12.K3-wrap", fname+" registers "+name, x.pos(in), "the bound method of the registered closer is stored")
-					continue
-				}
-				r.Undecide("%s: bound method appended at %s is not a method of the registered value", fname, x.pos(in))
-				continue
-			}
-			// closure: calls of the captured registered value
-			name := ""
-			isReg := func(call *ssa.Call) bool {
-				if call.Call.IsInvoke() {
-					if nm, ok := isAsserted(call.Call.Value, nil); ok {
-						name = nm
-						return true
-					}
-					return false
-				}
-				if _, isFn := call.Call.Value.(*ssa.Function); isFn {
-					return false
-				}
-				if _, isB := call.Call.Value.(*ssa.Builtin); isB {
-					return false
-				}
-				if nm, ok := isAsserted(call.Call.Value, nil); ok {
-					name = nm
-					return true
-				}
-				return false
-			}
-			var calls []*ssa.Call
-			fl := &c12Flow{Fn: w, Entry: 1,
-				Instr: func(in ssa.Instruction, replay bool, st uint64) uint64 {
-					if call, ok := in.(*ssa.Call); ok && isReg(call) {
-						seen := false
-						for _, c := range calls {
-							if c == call {
-								seen = true
-							}
-						}
-						if !seen {
-							calls = append(calls, call)
-						}
-						return mapStates(st, func(s int) int {
-							if s >= 2 {
-								return 2
-							}
-							return s + 1
-						})
-					}
-					return st
-				}}
-			fl.Run()
-			probs := map[string]bool{}
-			fl.AtReturns(func(ret *ssa.Return, st uint64) {
-				if st != 1<<1 {
-					probs["the wrapper stored in closers can return at "+x.pos(ret)+" having called the registered closer "+c12SetString(st)+" times instead of exactly once"] = true
-				}
-				if len(calls) == 1 && calls[0].Call.Signature().Results().Len() == 1 && len(ret.Results) == 1 {
-					for _, root := range c12ReturnRoots(ret, 0) {
-						if root != ssa.Value(calls[0]) {
-							probs["the wrapper stored in closers does not return the registered closer's error (return at "+x.pos(ret)+"): that closer error is missing from the joined result"] = true
-						}
-					}
-				}
-			})
-			if len(calls) == 0 {
-				r.Violation("C12.K3-wrap", fname+" wrapper at "+FuncName(p, w), x.pos(in), "the closure appended to closers never calls the value that was registered: AddCloser returns nil but that closer is never invoked")
-				continue
-			}
-			r.Check(len(probs) == 0, "C12.K3-wrap", fname+" registers "+name, x.pos(in), "the wrapper calls the registered closer exactly once and returns its error", c12Join(probs))
+			classifyVal(st, v, in)
 		}
-	})
+		return true
+	}
+	ex := newXplorer(p, x.ssaPkg, cl)
+	ex.Explore(fn, nil, 0)
 	if n == 0 {
-		r.Undecide("%s no longer appends to closers", fname)
+		x.undecide("%s no longer appends to the closers", fname)
 	}
 }
